@@ -194,6 +194,23 @@ Theorem C02_gen_point_interval_eq_model : forall s nxl nxr D, 0 < s ->
   G.point_interval s nxl nxr D = point_interval s nxl nxr D.
 Proof. exact gen_point_interval_eq. Qed.
 
+(* "... or the disparity lies outside the pixel's [min,max] interval", for per-pixel bounds that are NOT whole
+   pixels (grids derived from refined disparities by the multiscale step, float grid files): the generated test of
+   the second loop of cv_masked, read in the unit 1/(4 s) pixel (scale argument 1, sample D/s written 4 D, bound q/4
+   written q s), removes the cost exactly when the sample is outside [gq/4, hq/4] as rationals; the samples kept
+   run from the CEILING of the lower bound to the FLOOR of the upper bound; on whole-pixel bounds it is the test of
+   the model's unit.  (The translated statement is run by numpy on quarter-pixel grids in harness/mc_gen.py and
+   compared with the extracted generated test in this reading; whole quarter-pixel volumes are compared with the
+   exact oracle in harness/props/c02.py.) *)
+Theorem C02_gen_interval_test_quarter_pixel : forall s gq hq r c D, 0 < s ->
+  (G.cv_masked_out_of_range 1 (fun r c => gq r c * s) (fun r c => hq r c * s) r c (4 * D) = true
+   <-> (Qlt (D # Z.to_pos s) (gq r c # 4) \/ Qlt (hq r c # 4) (D # Z.to_pos s)))
+  /\ (G.cv_masked_out_of_range 1 (fun r c => gq r c * s) (fun r c => hq r c * s) r c (4 * D) = false
+      <-> - ((- (gq r c * s)) / 4) <= D <= (hq r c * s) / 4)
+  /\ (forall g h, G.cv_masked_out_of_range 1 (fun r c => 4 * g r c * s) (fun r c => 4 * h r c * s) r c (4 * D)
+                  = G.cv_masked_out_of_range s g h r c D).
+Proof. exact gen_interval_test_quarter_all. Qed.
+
 (* one iteration of the loop over the disparities of the three compute_cost_volume, as generated: the shifted
    right image is int((disp % 1) * subpix) = D mod s, the ranges are point_interval of (left, shifted right [i],
    disp), the columns written in the plane are the left range (zncc: cut 2 * offset before its end, p_std; the
@@ -433,6 +450,7 @@ Print Assumptions C02_dsp_index.
 Print Assumptions C02_measure_metadata.
 Print Assumptions C02_gen_pyarith_sound.
 Print Assumptions C02_gen_point_interval_eq_model.
+Print Assumptions C02_gen_interval_test_quarter_pixel.
 Print Assumptions C02_gen_loops_eq_model.
 Print Assumptions C02_gen_cv_masked_eq_model.
 Print Assumptions C02_gen_point_interval_spec.
